@@ -96,7 +96,7 @@ Definition ex_cfg : cfg := mkCfg 4 (bs "ACK") 10240 true.
 Definition ev_ (cr cw ur uw : bool) (cs us : outcome) (crv urv : recv_res) (rq : req_outcome) : event :=
   mkEvent 7 cr cw ur uw cs us crv urv rq DNothing.
 Definition ex_prefix : list event :=
-  [ ev_ true false false false (Accept 9) (Accept 9) (RData (bs "GET http://h/ HTTP/1.1")) ROsErr (RProxy false (bs "GET / HTTP/1.1"));
+  [ ev_ true false false false (Accept 9) (Accept 9) (RData (bs "GET http://h/ HTTP/1.1")) ROsErr (RProxy false (bs "GET / HTTP/1.1") []);
     ev_ false true true true (Accept 9) (Accept 2) ROsErr (RData (bs "413 too large")) RIncomplete;
     ev_ false true false true (Accept 1) Broken ROsErr ROsErr RIncomplete ].
 Definition ex_drain : list event :=
